@@ -101,11 +101,16 @@ def gen_parsed_spec(rng, idx=None):
     if len(sel) > 3:
         cfg["params"] = dict(cfg.get("params", {}), **sel[3])
     sched = {}
-    for wid in nets.split():
+    # idx beyond the table: the same selection with a skewed schedule - the first worker is an order of magnitude slower than the
+    # others, so that they run out of own work while it is still inside its first tests
+    skew = idx is not None and idx >= len(SELECTIONS)
+    for wi, wid in enumerate(nets.split()):
         seq = []
         for _ in range(rng.randint(1, 5)):
             st = "PASS" if rng.random() < 0.8 else rng.choice(["FAIL", "ERROR", "WARN", "SKIP", None])
-            seq.append([rng.choice([1, 2, 3, 5, 8, 13, 40]), st])
+            seq.append([rng.choice([1, 2, 3, 5, 8, 13, 40]) * (20 if skew and wi == 0 else 1), st])
+        if skew:
+            seq = [[d, "PASS"] for d, _ in seq]
         sched[wid] = seq
     spec = {"parsed": {"tests_str": tests_str, "vm_strs": vm_strs, "nets": nets}, "cfg": cfg, "pool": {}, "schedule": sched}
     if mixed:
